@@ -82,7 +82,7 @@ def common_entries():
     add('G.data', 0, 'return X.data()[0] == Xo.data()[0];')
     add('G.operator[]', 0, 'return X[0] == Xo[0];')
     add('G.size', 0, 'return X.size() == (unsigned)G::RepSize;')
-    add('G.cast', 0, 'return same(X.template cast<O>().coeffs(), Xo.template cast<O>().coeffs());')
+    add('G.cast', 0, 'return same(X.template cast<O>().coeffs(), Xo.template cast<O>().coeffs()) && ((X.template cast<O>().coeffs().template cast<double>() - Xo.coeffs().template cast<double>()).cwiseAbs().maxCoeff() <= 1e-5 * (1 + Xo.coeffs().template cast<double>().cwiseAbs().maxCoeff()));')
     add('G.setIdentity', 1, 'X.setIdentity(); return same(X.coeffs(), G::Identity().coeffs());')
     add('G.setRandom', 1, 'srand(3); X.setRandom(); srand(3); G r; r.setRandom(); return same(X.coeffs(), r.coeffs());')
     add('G.inverse', 0, 'J a, b; return same(X.inverse(a).coeffs(), Xo.inverse(b).coeffs()) && same(a, b) && same(X.inverse().coeffs(), Xo.inverse().coeffs());')
@@ -118,7 +118,7 @@ def common_entries():
     add('T.coeffs', 0, 'return same(t.coeffs(), to.coeffs());')
     add('T.data', 0, 'return t.data()[0] == to.data()[0];')
     add('T.operator[]', 0, 'return t[0] == to[0] && t.size() == (unsigned)T::DoF;')
-    add('T.cast', 0, 'return same(t.template cast<O>().coeffs(), to.template cast<O>().coeffs());')
+    add('T.cast', 0, 'return same(t.template cast<O>().coeffs(), to.template cast<O>().coeffs()) && ((t.template cast<O>().coeffs().template cast<double>() - to.coeffs().template cast<double>()).cwiseAbs().maxCoeff() <= 1e-5 * (1 + to.coeffs().template cast<double>().cwiseAbs().maxCoeff()));')
     add('T.setZero', 1, 't.setZero(); return same(t.coeffs(), T::Zero().coeffs());')
     add('T.setRandom', 1, 'srand(3); t.setRandom(); srand(3); T r; r.setRandom(); return same(t.coeffs(), r.coeffs());')
     add('T.setVee', 1, 't.setVee(so.hat()); return same(t.coeffs(), so.coeffs());')
@@ -320,7 +320,7 @@ def failing_entries(stderr, path, ranges):
 
 def run_cell_batch(job):
     """job = (gname, gtype, scalar, kind) -> result dict in the harness JSON format"""
-    gname, gtype, scalar, kind, workdir, tier = job
+    gname, gtype, scalar, kind, workdir, tier, build_only = job
     t0 = time.time()
     other = 'float' if scalar == 'double' else 'double'
     entries = entries_for(gname, kind)
@@ -331,30 +331,39 @@ def run_cell_batch(job):
     for old in _glob.glob(os.path.join(workdir, 'cache_%s_%s_%d.*.json' % (driver.sanitize(gname), scalar, kind))):
         if old != cache:
             os.remove(old)
-    if os.path.exists(cache):
-        d = json.load(open(cache))
-        d['_wall'] = 0.0
-        return d
     skip = {}
     path = os.path.join(workdir, 'gen_%s_%s_%d.cpp' % (driver.sanitize(gname), scalar, kind))
-    exe = path[:-4] + '.bin'
+    exe = os.path.join(workdir, 'bin_%s_%s_%d.%s' % (driver.sanitize(gname), scalar, kind, key))
     runout = ''
-    for attempt in range(6):
-        src, ranges = gen_tu(gtype, other, kind, entries, skip)
-        open(path, 'w').write(src)
-        rc, err = compile_tu(path, exe)
-        if rc == 0:
-            r = subprocess.run([exe], capture_output=True, text=True, timeout=600)
-            runout = r.stdout
-            if r.returncode != 0:
-                runout += '\nABNORMAL EXIT %d' % r.returncode
-            break
-        bad = failing_entries(err, path, ranges)
-        if not bad:
-            # cannot attribute: report the whole batch
-            skip = dict((e, 'batch does not compile and the diagnostics could not be attributed: ' + err[-300:]) for e, _ in entries)
-            break
-        skip.update(bad)
+    built = False
+    if os.path.exists(cache) and os.path.exists(exe):
+        # the compiled batch for exactly this tree is cached (like every other harness binary); it is RUN again on every check
+        skip = json.load(open(cache))['skip']
+        built = True
+    else:
+        for old in _glob.glob(os.path.join(workdir, 'bin_%s_%s_%d.*' % (driver.sanitize(gname), scalar, kind))):
+            os.remove(old)
+        for attempt in range(6):
+            src, ranges = gen_tu(gtype, other, kind, entries, skip)
+            open(path, 'w').write(src)
+            rc, err = compile_tu(path, exe)
+            if rc == 0:
+                built = True
+                break
+            bad = failing_entries(err, path, ranges)
+            if not bad:
+                # cannot attribute: report the whole batch
+                skip = dict((e, 'batch does not compile and the diagnostics could not be attributed: ' + err[-300:]) for e, _ in entries)
+                break
+            skip.update(bad)
+        json.dump(dict(skip=skip), open(cache, 'w'))
+    if build_only:
+        return None
+    if built and os.path.exists(exe):
+        r = subprocess.run([exe], capture_output=True, text=True, timeout=600)
+        runout = r.stdout
+        if r.returncode != 0:
+            runout += '\nABNORMAL EXIT %d' % r.returncode
     failures, passed, failed = [], 0, 0
     prop = 'C19'
     for eid, msg in sorted(skip.items()):
@@ -380,14 +389,10 @@ def run_cell_batch(job):
              checks_done={'cell': n}, max_ratio={}, failures=failures,
              samples=[dict(cell='%s/%s' % (unit, entries[len(entries) // 2][0]), program=entries[len(entries) // 2][1])], notes=[],
              _unit=unit, _build='c++11', _wall=time.time() - t0)
-    json.dump(d, open(cache, 'w'))
-    for f in (exe,):
-        if os.path.exists(f):
-            os.remove(f)
     return d
 
 
-def run_matrix(groups, scalars, tier, jobs):
+def run_matrix(groups, scalars, tier, jobs, build_only=False):
     workdir = os.path.join(driver.BUILD, 'progmatrix_alt' if driver.ALT else 'progmatrix')
     os.makedirs(workdir, exist_ok=True)
     # drop stale caches (other tree hashes)
@@ -395,11 +400,12 @@ def run_matrix(groups, scalars, tier, jobs):
     for gname, gtpl in groups:
         for s in scalars:
             for k in range(3):
-                tasks.append((gname, gtpl.format(S=s), s, k, workdir, tier))
+                tasks.append((gname, gtpl.format(S=s), s, k, workdir, tier, build_only))
     res = []
     with cf.ThreadPoolExecutor(max_workers=jobs) as ex:
         for d in ex.map(run_cell_batch, tasks):
-            res.append(d)
+            if d is not None:
+                res.append(d)
     keep = set()
     for d in res:
         pass
